@@ -1,1 +1,13 @@
 import SwcVerif.Props.C18
+import SwcVerif.Props.C05
+#print axioms C18.dsu_refines_partition
+#print axioms C18.runOps_cons
+#print axioms C18.invalid_rejected
+#print axioms C18.hasCyclic_spec
+#print axioms C18.isBifurcate_correct
+#print axioms C18.jumpPass_stop
+#print axioms C18.getDsu_fixpoint
+#print axioms C18.getDsu_sorted_forest_partial
+#print axioms C18.repair_somas
+#print axioms C18.repair_nearest_partial
+#print axioms C05.isSorted_iff
